@@ -116,7 +116,12 @@ fn child(sc_path: &str, out_path: &str) -> i32 {
             return 3;
         }
     }
-    let pm = ParModel { w: sc.w_expected, script: sc.script.clone(), process_cap: if sc.process_cap > 0 { sc.process_cap } else { model::PROCESS_CAP }, fill_at_end: sc.fill_at_end, bug: None };
+    let pm = ParModel { w: sc.w_expected, script: sc.script.clone(), process_cap: if sc.process_cap > 0 { sc.process_cap } else { model::PROCESS_CAP },
+        // the multi-thread context ignores empty fills (as the single-thread context does): whether the
+        // source fills on its end-of-input read (sc.fill_at_end) is invisible to the protocol
+        fill_at_end: false,
+        bug: None,
+    };
     let stats = Arc::new(Mutex::new(ChildStats::default()));
     let first: Arc<Mutex<Option<(RunResult, Vec<Ev>)>>> = Arc::new(Mutex::new(None));
     let mut builder = loom::model::Builder::new();
@@ -274,6 +279,7 @@ fn mk(name: &str, wcfg: usize, env: Option<&str>, wexp: usize, script: Vec<Read>
         bs: 72,
         preemption_bound: pb,
         fill_at_end: true,
+        empty_fill_first: false,
         process_cap: 0,
     }
 }
@@ -313,6 +319,12 @@ fn c05_scenarios(thorough: bool) -> Vec<Scenario> {
     let mut s = mk("cfg_w2_f2_nofill_at_end", 2, None, 2, data(2), 0, false, pb);
     s.fill_at_end = false;
     v.push(s);
+    // a source that issues an empty fill before every block (a no-op in single-thread mode)
+    for (w, f, byte) in [(1usize, 2usize, false), (2, 2, false), (2, 2, true)] {
+        let mut s = mk(&format!("emptyfill_w{w}_f{f}_{}", if byte { "bytes" } else { "ints" }), w, None, w, data(f), 5, byte, pb);
+        s.empty_fill_first = true;
+        v.push(s);
+    }
     // hashing queue shrunk to one / two slots (the code's 16 is a tuning constant): the feeder blocks on it
     let caps: &[(usize, usize, usize)] = if thorough { &[(1, 3, 1), (2, 1, 1), (2, 2, 1), (2, 3, 2), (1, 4, 2)] } else { &[(1, 3, 1), (2, 1, 1)] };
     for &(w, f, cap) in caps {
@@ -412,6 +424,18 @@ fn c06_scenarios(thorough: bool) -> Vec<Scenario> {
             v.push(mk(&format!("w{w}_f{f}_faultfree"), w, None, w, data(f), 0, false, 2));
         }
     }
+    // a source that issues an empty fill before every block: terminates with every frame, and the
+    // faults are reported as in single-thread mode
+    for (w, f) in [(1usize, 3usize), (2, 2)] {
+        let mut s = mk(&format!("emptyfill_w{w}_f{f}_faultfree"), w, None, w, data(f), 0, false, 2);
+        s.empty_fill_first = true;
+        v.push(s);
+    }
+    for (name, script) in fault_scripts(2).into_iter().filter(|(n, _)| !n.contains('+')) {
+        let mut s = mk(&format!("emptyfill_w2_f2_{name}"), 2, None, 2, script, 0, false, 2);
+        s.empty_fill_first = true;
+        v.push(s);
+    }
     // sources that do not fill at end of input
     for (name, script) in fault_scripts(2) {
         let mut s = mk(&format!("nofill_w2_f2_{name}"), 2, None, 2, script, 0, false, 2);
@@ -509,21 +533,19 @@ fn model_instances(prop: &str, thorough: bool) -> Vec<(String, ParModel)> {
                 if w == 4 && f > 4 {
                     continue;
                 }
-                for fill in [true, false] {
-                    v.push((format!("W{w}_F{f}_fill{fill}"), ParModel { w, script: data(f), process_cap: model::PROCESS_CAP, fill_at_end: fill, bug: None }));
-                }
+                v.push((format!("W{w}_F{f}"), ParModel { w, script: data(f), process_cap: model::PROCESS_CAP, fill_at_end: false, bug: None }));
             }
         }
         // a small hashing queue makes the feeder block on it (the code's capacity is 16)
         for cap in [1usize, 2] {
-            v.push((format!("W2_F4_cap{cap}"), ParModel { w: 2, script: data(4), process_cap: cap, fill_at_end: true, bug: None }));
+            v.push((format!("W2_F4_cap{cap}"), ParModel { w: 2, script: data(4), process_cap: cap, fill_at_end: false, bug: None }));
         }
     } else {
         for w in 1..=maxw {
             let fs: Vec<usize> = if w >= 3 { vec![2, 3.min(maxf)] } else { (1..=maxf.min(if thorough { 5 } else { 4 })).collect() };
             for f in fs {
                 for (name, script) in fault_scripts(f) {
-                    v.push((format!("W{w}_F{f}_{name}"), ParModel { w, script, process_cap: model::PROCESS_CAP, fill_at_end: true, bug: None }));
+                    v.push((format!("W{w}_F{f}_{name}"), ParModel { w, script, process_cap: model::PROCESS_CAP, fill_at_end: false, bug: None }));
                 }
             }
         }
@@ -681,7 +703,7 @@ fn run_parent(prop: &str, tier: &str, seed: u64, report: Option<String>, replay:
             ("one_stop_token_short", model::Bug::OneStopTokenShort, vec![ok, Read::End], 2),
         ];
         for (name, bug, script, w) in cases {
-            let m = ParModel { w, script, process_cap: model::PROCESS_CAP, fill_at_end: true, bug: Some(bug) };
+            let m = ParModel { w, script, process_cap: model::PROCESS_CAP, fill_at_end: false, bug: Some(bug) };
             let (uniq, _, _, disc) = model::explore(m, 4);
             let found = disc.iter().any(|(p, _)| p == "safe" || p == "returns");
             selftest.insert(name.to_string(), json!({"found": found, "states": uniq}));
